@@ -6,7 +6,7 @@ from vlib.framework import Family
 from vlib import coqlit as L
 
 PID = "C18"
-PROP_FILES = ["Prop"]
+PROP_FILES = ["Prop", "PropHist"]
 EXTRA_COQ_DIRS = ["C08"]
 # Flocq's binary32/binary64 formats are defined over Coq's axiomatic reals (only the f/d theorems depend on them)
 ALLOWED_AXIOMS = [r"ClassicalDedekindReals\.sig_not_dec$", r"ClassicalDedekindReals\.sig_forall_dec$",
@@ -15,14 +15,27 @@ RULE = ("chunks: size 1..9 x length 0..20 x format b h i f d x byte order None/<
         "include the extremes of each width and non-representable doubles for 'f'; non-trivial = at least one full "
         "chunk and a padded tail; wav: every width x mono/stereo x keep, samples include the extremes; files written "
         "with the standard wave module from bytes built by int.to_bytes; non-trivial = >= 3 samples incl. a negative "
-        "(or > 127 for 8 bit) one")
+        "(or > 127 for 8 bit) one; wavhist: 2-3 WavStreams (same file / different files / mixed widths, opened by name) "
+        "alive together and pulled one sample at a time in seeded orders (alternating, frame-wise, sequential, random, "
+        "stopping early), pulls continue past StopIteration, the OS file objects the library opened are watched after "
+        "every pull and after deletion; non-trivial = >= 2 switches between streams that both still hold samples; "
+        "ckinds / cinter: the caller's object of 12 kinds (list, tuple, generator, iterator, Stream, deque bounded and "
+        "not, array.array with the same / another typecode, range, __iter__-only object, itertools.repeat, thub) used in "
+        "2-4 chunks calls (other size / pad / strategy / byte order; reached as chunks[name], chunks.name, chunks(); "
+        "keyword / positional / defaults left out; size=None), sequentially or with the generators alive together and "
+        "consumed alternately; the object is read again after the calls and the yielded chunk objects are re-read at the "
+        "end; non-trivial = padded tail in the first call and a later call on the same object")
 EXHAUSTIVE = {"quick": False, "thorough": False}
 trusted_base = ["native byte order of the machine running the check is little-endian (checked at run time); the struct marks "
                 "'!' / '=' / '@' are mapped to the model's Big / Little / Native (struct documents '!' = big-endian, '=' = native "
                 "order with standard sizes, '@' = native mode)",
                 "struct.pack / array / wave module of CPython are the reference for the byte formats",
-                "Flocq 'binary_normalize' with mode_NE models the double->single conversion of struct 'f'"]
-ASSUMPTIONS = ["WAV files contain whole frames only"]
+                "Flocq 'binary_normalize' with mode_NE models the double->single conversion of struct 'f'",
+                "wavhist: 'file closed' = .closed of every file object created by builtins.open (wrapped during the run) for "
+                "the stream's path; deletion = dropping all references + gc.collect() on CPython"]
+ASSUMPTIONS = ["WAV files contain whole frames only",
+               "histories: the harness itself never mutates an object between the calls, so every call on a re-iterable "
+               "object is held against the object's ORIGINAL contents (a call that changes its argument shows in the next one)"]
 
 FMTW = {"b": 1, "h": 2, "i": 4, "f": 4, "d": 8}
 FLOATS = [0.0, 1.0, -1.0, 0.5, 0.1, -0.3, 1e-3, 0.999999, -2.5, 3.0e10, 1.0000001, 2.0 ** -130, -0.0, 1 / 3.0,
@@ -198,8 +211,19 @@ def nontrivial_wav(c, o):
 
 
 IMPORTS = "From AL Require Import C18.Model C18.Spec C18.Check.\nOpen Scope Z_scope."
+IMPORTS_H = "From AL Require Import C18.Model C18.Spec C18.Check C18.Hist.\nOpen Scope Z_scope."
+import C18_hist as H
 FAMILIES = {
   "chunks": Family("chunks", IMPORTS, "ccase", "corr_chunks", "holds_chunks", gen_chunks, run_chunks, lit_chunks,
                    nontrivial_chunks, known_chunks),
   "wav": Family("wav", IMPORTS, "wcase", "corr_wav", "holds_wav", gen_wav, run_wav, lit_wav, nontrivial_wav),
+  # several live streams pulled alternately; file-handle state after every pull and after deletion
+  "wavhist": Family("wavhist", IMPORTS_H, "hcase", "corr_wavhist", "holds_wavhist", H.gen_wavhist, H.run_wavhist,
+                    H.lit_wavhist, H.nontrivial_wavhist),
+  # every kind of caller's object, used again in later calls (other size / pad / strategy / order)
+  "ckinds": Family("ckinds", IMPORTS_H, "kcase", "corr_ckinds", "holds_ckinds", H.gen_ckinds, H.run_chist, H.lit_chist,
+                   H.nontrivial_chist),
+  # two or three chunk generators alive together, consumed alternately
+  "cinter": Family("cinter", IMPORTS_H, "kcase", "corr_ckinds", "holds_ckinds", H.gen_cinter, H.run_chist, H.lit_chist,
+                   H.nontrivial_chist),
 }
